@@ -6,6 +6,7 @@
 -/
 import Absnfs.HandlesInv
 import Gen.Facts
+import Absnfs.ServerStale
 open Absnfs Absnfs.Handles
 
 namespace Props.C06
@@ -98,5 +99,21 @@ theorem next_monotone (s : St) (op : Op) :
   | releaseAll => exact Nat.le_refl _
 
 example : get (run' (init 0) [.alloc [97], .release 1, .alloc [98]]) 1 = some [98] := by decide
+
+/-- Second clause at handler level, for the server model the replies are checked against: every NFS procedure
+    that takes a handle (GETATTR … COMMIT, 1..21), given arguments whose handle decodes but is not (or no longer) in
+    the table — released, evicted, or from before an Unexport — leaves the whole server state unchanged and answers
+    with a status other than NFS3_OK and a body without attributes or data (the status is NFS3ERR_STALE unless an
+    earlier check of the same handler fires first: read-only export, undecodable or invalid remaining arguments). -/
+theorem dead_handle_refused_by_every_procedure (s : Server.St) (c : Server.Ctx) (proc : Nat) (hp : 1 ≤ proc ∧ proc ≤ 21)
+    (args r1 : Bytes) (h : Nat) (hfh : Server.decFh' s args = some (h, r1)) (hn : Server.nodeOf s h = none) :
+    (Server.handleNfs s c proc args).1 = s ∧
+    ∃ st b, (Server.handleNfs s c proc args).2 = Server.res st b ∧ st ≠ 0 ∧ Server.BareBody b :=
+  Server.dead_handle_refused proc hp hfh hn
+
+/-- … and it is NFS3ERR_STALE (70) for GETATTR, the procedure with no other argument -/
+example (s : Server.St) (c : Server.Ctx) (args r1 : Bytes) (h : Nat) (hfh : Server.decFh' s args = some (h, r1))
+    (hn : Server.nodeOf s h = none) : Server.procGetattr s c args = (s, Server.res 70 .statusOnly) := by
+  unfold Server.procGetattr; simp only [hfh, hn]
 
 end Props.C06
